@@ -120,6 +120,32 @@ fn main() {
         fjall::verif::pause::set(None);
         if finished { t.join().unwrap(); let _ = std::fs::remove_dir_all(dir); }
     }
+    // F24: a worker that rotated a memtable sent the follow-up Flush with a blocking send on the bounded
+    // worker channel; with the channel full (one rotation request per write above the memtable limit)
+    // and one worker thread, the worker waits for room in the channel only it drains
+    {
+        use std::sync::{Arc, Condvar, Mutex};
+        let dir = std::path::PathBuf::from("/dev/shm/verif-scratch-f24");
+        let _ = std::fs::remove_dir_all(&dir);
+        let gate = Arc::new((Mutex::new((false, false)), Condvar::new()));
+        let g2 = gate.clone();
+        fjall::verif::pause::set(Some(Arc::new(move |name: &'static str| {
+            if name == "worker.rotate.begin" { let (m, cv) = &*g2; let mut g = m.lock().unwrap(); if !g.0 { g.0 = true; cv.notify_all(); while !g.1 { g = cv.wait(g).unwrap(); } } }
+        })));
+        let db = fjall::Database::builder(&dir).worker_threads(1).open().unwrap();
+        let ks = db.keyspace("a", || KeyspaceCreateOptions::default().max_memtable_size(4 * 1024)).unwrap();
+        let v = vec![7u8; 200];
+        let mut i = 0u64;
+        while !gate.0.lock().unwrap().0 { ks.insert(format!("{i:08}"), &v).unwrap(); i += 1; }
+        while fjall::verif::queued_worker_messages(&db) < 1000 { ks.insert(format!("{i:08}"), &v).unwrap(); i += 1; }
+        { let (m, cv) = &*gate; m.lock().unwrap().1 = true; cv.notify_all(); }
+        let t0 = std::time::Instant::now();
+        let mut ok = false;
+        while t0.elapsed() < std::time::Duration::from_secs(10) { if fjall::verif::queued_worker_messages(&db) == 0 && ks.table_count() > 0 { ok = true; break; } std::thread::sleep(std::time::Duration::from_millis(20)); }
+        println!("F24: after {i} writes filled the worker channel, the only worker drained it and flushed within 10 s = {ok}");
+        fjall::verif::pause::set(None);
+        if ok { drop(ks); drop(db); let _ = std::fs::remove_dir_all(dir); } else { std::mem::forget(ks); std::mem::forget(db); }
+    }
     // F12: version marker absent on an existing database whose first journal was already reclaimed
     {
         let dir = std::path::PathBuf::from("/dev/shm/verif-scratch-f12");
